@@ -3,8 +3,10 @@ package c09
 import (
 	"github.com/yorkie-team/yorkie/pkg/document"
 	"github.com/yorkie-team/yorkie/pkg/document/crdt"
+	"github.com/yorkie-team/yorkie/pkg/document/operations"
 
 	"verifharness/kit"
+	"verifharness/prog"
 )
 
 // Exclusions by construction for real defects of the pinned tree that this
@@ -20,7 +22,7 @@ const (
 	// raised to the occupant's ticket. The decoded tombstone carries a later
 	// ticket than the original (purged later; GarbageLen after the same
 	// collection differs), and which members are hit varies from run to run.
-	findingMemberTombstone = "F22"
+	findingMemberTombstone = "F41"
 
 	// findingGarbageLeak: Root.GarbageCollect purges a removed container
 	// (tree/text) but keeps the GC pairs of tombstoned nodes inside it whose
@@ -28,8 +30,88 @@ const (
 	// are no longer part of the document. No encoding of the document's
 	// value can carry them (the in-memory DeepCopy loses them too), so the
 	// "keeps GarbageLen" clause cannot be decided on such a document.
-	findingGarbageLeak = "F23"
+	findingGarbageLeak = "F42"
 )
+
+// findingTextAttr (upstream-known, docs/tasks/active/20260816-remote-redo-
+// replica-divergence-todo.md "a text node's tombstoned attribute is resurrected
+// by a snapshot round trip"): toTextNodes never writes NodeAttr.is_removed and
+// fromTextNode always builds a live attribute, so a style key removed from a
+// text node (e.g. by undoing the Style that added it) is back after
+// BytesToSnapshot(SnapshotToBytes(d)).
+const findingTextAttr = "F43"
+
+// snapshotExclusion names the known finding whose trigger the document holds
+// (its snapshot round trip is then not compared), or "".
+func snapshotExclusion(doc *document.InternalDocument) string {
+	if kit.NoExclusions() {
+		return ""
+	}
+	switch {
+	case staleMemberTombstone(doc.RootObject()):
+		return findingMemberTombstone
+	case removedTextAttr(doc.RootObject()):
+		return findingTextAttr
+	case leakedGarbage(doc):
+		return findingGarbageLeak
+	}
+	return ""
+}
+
+// removedTextAttr reports whether some text node holds a tombstoned
+// attribute: the trigger of findingTextAttr.
+func removedTextAttr(e crdt.Element) bool {
+	switch v := e.(type) {
+	case *crdt.Object:
+		for _, n := range v.RHTNodes() {
+			if removedTextAttr(n.Element()) {
+				return true
+			}
+		}
+	case *crdt.Array:
+		for _, n := range v.RGATreeList().AllNodes() {
+			if n.Element() != nil && removedTextAttr(n.Element()) {
+				return true
+			}
+		}
+	case *crdt.Text:
+		for _, n := range v.Nodes() {
+			for _, a := range n.Value().Attrs().Nodes() {
+				if a.IsRemoved() {
+					return true
+				}
+			}
+		}
+	}
+	return false
+}
+
+// findingSpanOrder: RGATreeSplit.deleteNodes returns the removed nodes as a
+// Go map, so the restore spans of the reverse of a text edit that removed two
+// or more nodes are in a different order from run to run (RGATreeSplit.restore
+// assumes document order). Not an encoding defect, but two executions of the
+// same history are then not comparable; undo/redo steps whose top entry holds
+// such an Edit are not executed.
+const findingSpanOrder = "F44"
+
+// guardSpanOrder is the step guard of findingSpanOrder.
+func guardSpanOrder(d *document.Document, s prog.Step) string {
+	var top []document.HistoryOperation
+	switch s.Op {
+	case "undo":
+		top = d.UndoStackTopForTest()
+	case "redo":
+		top = d.RedoStackTopForTest()
+	default:
+		return ""
+	}
+	for _, h := range top {
+		if e, ok := h.Op.(*operations.Edit); ok && (len(e.RestoreSpans()) > 1 || len(e.RetombstoneSpans()) > 1) {
+			return findingSpanOrder
+		}
+	}
+	return ""
+}
 
 func excl(id string) bool { return !kit.NoExclusions() && id != "" }
 
